@@ -19,7 +19,7 @@ WORDS = ["a", "b", "c", "FAIL"]
 NASTY = ['x,y', 'say "hi"', "two\nlines", "ünï", "semi;colon", "pipe|d", " lead", "'single'", "q\"mid"]
 
 
-def gen_rows(rng, *, min_rec=1, max_rec=9, ncol=None, nasty=False, blank_p=0.15, ragged_p=0.1, trailing_blank_p=0.2, hdr=None, extra_cells=None):
+def gen_rows(rng, *, min_rec=1, max_rec=9, ncol=None, nasty=False, blank_p=0.15, ragged_p=0.1, trailing_blank_p=0.2, hdr=None, extra_cells=None, ws_lines=False):
     """rows[0] is the header record; column 0 is a unique row id."""
     n = rng.randint(min_rec, max_rec)
     ncol = ncol or rng.randint(2, 4)
@@ -28,7 +28,8 @@ def gen_rows(rng, *, min_rec=1, max_rec=9, ncol=None, nasty=False, blank_p=0.15,
     rows = [list(hdr)]
     for i in range(1, n + 1):
         if rng.random() < blank_p:
-            rows.append([])
+            # a blank record; now and then a physical line holding nothing but blanks (one cell of whitespace)
+            rows.append(["   "] if (ws_lines and rng.random() < 0.3) else [])
             continue
         r = [f"r{i}"]
         for c in range(1, ncol):
